@@ -538,7 +538,9 @@ func callSSA(i *interpreter, caller *frame, callpos token.Pos, fn *ssa.Function,
 	if fn.Parent() == nil {
 		name := fn.String()
 		if in := i.P.intrinsic(fn, name); in != nil {
-			return in(fr, args)
+			if r := in(fr, args); r != (declined{}) {
+				return r
+			}
 		}
 		if ext := externals[name]; ext != nil {
 			if i.mode&EnableTracing != 0 {
@@ -560,7 +562,20 @@ func callSSA(i *interpreter, caller *frame, callpos token.Pos, fn *ssa.Function,
 		i.p.funcs[fn.String()] = true
 		if i.p.watch != nil && i.p.watch[fn.String()] {
 			i.p.watching++
-			defer func() { i.p.watching-- }()
+			defer func() {
+				i.p.watching--
+				if i.p.watching == 0 && i.p.watchAcc != nil {
+					if r := recover(); r != nil {
+						if isSentinel(r) {
+							panic(r)
+						}
+						// the watched call panicked (refused): wraps before a refusal do not reach the caller
+						i.p.watchAcc = nil
+						panic(r)
+					}
+					i.p.watchFlush()
+				}
+			}()
 		}
 	}
 	fr.env = make(map[ssa.Value]value)
